@@ -78,7 +78,7 @@ def run(ctx, selftest=False):
                 "paths and orders (quick: seeded subset) + seeded random requests on libraries to 400 / 5000 rows incl. -inf "
                 "likelihoods; distinct = distinct (request, evaluated rows, returned rows); trivial = request that raises before evaluating")
     ctx.assumptions = ["TLC/SANY", "Apalache 0.58 (inductive invariant)", "as C02 for the acceptance rule"]
-    ctx.model_check("Iterative", "MC_Iterative.cfg", coverage=True)
+    ctx.model_check("Iterative", "MC_Iterative.cfg" if quick else "MC_Iterative_thorough.cfg", coverage=True)
     apalache(ctx)
     r = ctx.model_check("IterativeCases", "MC_IterativeCases.cfg", workers=1)
     rnd = random.Random(ctx.seed * 7368787 + 14)
